@@ -72,7 +72,9 @@ def flav(rng, leafs_have_nan=False, dom="float"):
             "wherearg": rng.choice(["tuple", "list", "reuse"]),
             "persist": rng.random() < 0.5,
             # operators, or the named methods (add, rsubtract, logical_rxor, negate, quantiles ...) they are aliases of
-            "opform": rng.choice(["operator", "operator", "method"])}
+            "opform": rng.choice(["operator", "operator", "method"]),
+            # dtype of the step values handed to from_values (integers stay int64 when every value is integral)
+            "valdtype": rng.choice(["float", "float", "int"])}
 
 
 def has_nan(leaf):
@@ -344,6 +346,11 @@ def gen_C06(rng, tier):
         elif kind in ("mask", "where"):
             prog += [leaf_stmt(1, g, cb), C.mask(2, 0, 1, inverse=(kind == "where"))]
             nanleaf = nanleaf or has_nan(g)
+            if rng.random() < 0.3:       # the masker is used, extended in place, and used again
+                gp = leaf_points(g) or [F(0), F(1)]
+                a_, b_ = rng.choice(gp), rng.choice(gp + [None])
+                prog += observe_all(2, pts) + [C.layer_s(1, a_, b_, rng.choice([F(1), F(-1), F(2)])),
+                                               C.mask(2, 0, 1, inverse=(kind == "where"))]
         elif kind in ("maskt", "wheret"):
             lo, hi = bounds(rng, f)
             prog.append(C.maskt(2, 0, lo, hi, inverse=(kind == "wheret")))
@@ -1113,6 +1120,8 @@ def rand_intervals(rng, leaf, tiling=False):
     for _ in range(rng.randint(1, 4)):
         a, b = sorted(rng.sample(grid, 2))
         out.append((a, b))
+    if rng.random() < 0.5:
+        out.sort()       # sorted by left end: nested / overlapping intervals then count as 'monotonic increasing' for pandas
     return out       # overlapping, gapped, unordered alike
 
 
@@ -1382,7 +1391,7 @@ def gen_C17(rng, tier):
     # fall-back path there) must still be the one of the numeric domains; the integral is not queried (it raises
     # OverflowError on those domains by design)
     for k in range(max(4, n // 8)):
-        big = F(2 ** rng.choice([34, 36, 40]))
+        big = F(2 ** rng.choice([34, 36, 40, 60, 60]))      # 2^60 x a length of a few units exceeds int64
         pts = sorted(rng.sample([F(j) for j in range(0, 12)], rng.randint(3, 5)))
         vals = [rng.choice([F(0), None])] + [rng.choice([big, 2 * big, 3 * big, None, F(0)]) for _ in pts[:-1]] + [F(0)]
         if all(v is None or v == 0 for v in vals[1:-1]):
